@@ -115,6 +115,21 @@ func init() {
 		if t := typesUniverse(rc); t != nil {
 			rc.execFamily(t, "C01")
 		}
+		// comparisons across the three Go representations of numbers, strings and
+		// the other types: the corpus of C12, every ordered pair
+		if rc.runMC("MC_C12", []string{"Inv"}, nil, 30*time.Minute) == nil {
+			return
+		}
+		rows, err := readNDJSON[corpusRow](filepath.Join(rc.Dir, "corpus.ndjson"))
+		if err != nil {
+			rc.infra("%v", err)
+			return
+		}
+		var slots []slot
+		for _, r := range rows {
+			slots = append(slots, instantiate(r.V)...)
+		}
+		rc.execFamily(cmpUniverse(slots), "C01")
 	}
 	checks["C05"] = func(rc *RunCtx) {
 		mixCheck(rc, small, mid, 20000, 300000, "C05")
